@@ -117,7 +117,12 @@ func loadUniverse(repo, modDir string, patterns []string) (*Universe, error) {
 				pi.Local = true
 			}
 		}
-		if d := u.repoDirFor(p.PkgPath); d != "" {
+		d := u.repoDirFor(p.PkgPath)
+		if d == "" {
+			// dependencies outside /repo: assumed contracts kept under /verif/stubs/<import path>/
+			d = filepath.Join(stubsDir, p.PkgPath)
+		}
+		if d != "" {
 			cf := filepath.Join(d, "verif_contracts.go")
 			if _, err := os.Stat(cf); err == nil {
 				pc, err := loadContracts(cf)
